@@ -36,6 +36,20 @@ def run(ctx):
         if k % 5 == 0:
             # contract-violating but allowed by the reference semantics: delays beyond the duration
             c["delay"] = [[u, v, [[str(F(x) * 3) for x in l] for l in per]] for u, v, per in c["delay"]]
+        if k % 4 == 1:
+            # SELF-LOOPS (what configuration-model networks contain): u is one of its own neighbours, so the rule is asked
+            # for delays from u to u; an attempt that arrives while u is infectious does nothing, one that arrives after u
+            # has recovered re-infects it (the reference semantics makes every listed attempt)
+            for u in ctx.rng.sample(range(c["n"]), ctx.rng.randint(1, min(2, c["n"]))):
+                if [u, u] in c["edges"]:
+                    continue
+                c["edges"].append([u, u])
+                per = []
+                for occ in range(len(c["dur"][u])):
+                    d = F(c["dur"][u][occ])
+                    per.append([str(x) for x in sorted({d * F(ctx.rng.choice([16, 24, 40, 48, 72, 100]), 32) for _ in range(ctx.rng.choice([0, 1, 1, 2]))})])
+                c["delay"].append([u, u, per])
+            ctx.count("self-loops")
         full, G, idx = allsims.run_impl(c, rng=ctx.rng, full=True)
         plain, _, _ = allsims.run_impl(c, rng=ctx.rng, full=False)
         rep = dict(entry="fast_nonMarkov_SIS", case=strip(c))
